@@ -446,6 +446,7 @@ func runC13(c *Ctx) {
 }
 
 var c13Canaries = []Canary{
+	{Name: "r4-source-name-first", ExpectKey: "C13.R3#index-entry-name", Edits: []Edit{{File: "lfs/gitscanner_index.go", Find: "\t\t\tvar name string = scanner.Entry().DstName\n\t\t\tif len(name) == 0 {\n\t\t\t\tname = scanner.Entry().SrcName", Repl: "\t\t\tvar name string = scanner.Entry().SrcName\n\t\t\tif len(name) == 0 {\n\t\t\t\tname = scanner.Entry().DstName"}}},
 	{Name: "ok-after-mismatch", ExpectKey: "C13.R1#fsckPointer", Edits: []Edit{{File: "commands/command_fsck.go", Find: "	Print(fmt.Sprintf(\"objects: corruptObject: %s\", tr.Tr.Get(\"%s (%s) is corrupt\", name, oid)))\n	return false, nil", Repl: "	Print(fmt.Sprintf(\"objects: corruptObject: %s\", tr.Tr.Get(\"%s (%s) is corrupt\", name, oid)))\n	return size < 0, nil"}}},
 	{Name: "hash-compare-name", ExpectKey: "C13.R1#fsckPointer:intact-only-if-hash-matches", Edits: []Edit{{File: "commands/command_fsck.go", Find: "	if recalculatedOid == oid {", Repl: "	if recalculatedOid == name {"}}},
 	{Name: "skip-seen-names", ExpectKey: "C13.R1#doFsckObjects:examines-every-pointer", Edits: []Edit{{File: "commands/command_fsck.go", Find: "	var corruptOids []string\n	gitscanner := lfs.NewGitScanner(cfg, func(p *lfs.WrappedPointer, err error) {\n		if err == nil {\n			var pointerOk bool", Repl: "	var corruptOids []string\n	seen := map[string]bool{}\n	gitscanner := lfs.NewGitScanner(cfg, func(p *lfs.WrappedPointer, err error) {\n		if err == nil && !seen[p.Name] {\n			seen[p.Name] = true\n			var pointerOk bool"}}},
